@@ -37,7 +37,7 @@ def generate(tier, rng):
                     if nm == 1:
                         v.ts = 'shown-%d' % i
                     elif nm == 2:
-                        v.ser = ['a%d' % i, 'bb%d' % i]
+                        v.ser = ['a%d' % i, 'bb%d' % i] if (i + k) % 8 != 2 else ['ok%d' % i, 'OK%d' % i, 'Ok%d' % i]
                     elif nm == 3:
                         v.ser = ['s%d' % i]
                         v.ts = 't%d' % i
